@@ -273,31 +273,40 @@ structure LoopState where
   sigs : List Signature := []
   unverifiedSigs : List Signature := []
 
+/-- `Signature{Name, Hash, Base64}` of a parsed line -/
+def SigLine.toSig (p : SigLine) : Signature := ⟨p.name, p.hash, p.b64⟩
+
+/-- one iteration of the signature loop of Open -/
+def openStep (known : Verifiers) (text : Bytes) (st : LoopState) (line : Bytes) : Except OpenErr LoopState :=
+  match parseSigLine line with
+  | none => .error .malformed
+  | some p =>
+    let numSig := st.numSig + 1
+    if numSig > maxSigs then .error .malformed else
+    let st := { st with numSig := numSig }
+    match known p.name p.hash with
+    | .unknown =>
+      -- Drop repeated identical unverified signatures.
+      if st.seenUnverified.contains p.line then .ok st
+      else .ok { st with seenUnverified := p.line :: st.seenUnverified,
+                         unverifiedSigs := st.unverifiedSigs ++ [p.toSig] }
+    | .ambiguous => .error (.ambiguous p.name p.hash)
+    | .otherErr => .error .other
+    | .found v =>
+      -- Check that known.Verifier returned the right verifier.
+      if v.name != p.name || v.hash != p.hash then .error .mismatchedVerifier
+      -- Drop repeated signatures by a single verifier.
+      else if st.seen.contains (p.name, p.hash) then .ok st
+      else if !v.verify text p.sig then .error (.invalidSignature p.name p.hash)
+      else .ok { st with seen := (p.name, p.hash) :: st.seen, sigs := st.sigs ++ [p.toSig] }
+
 /-- the signature loop of Open -/
 def openLoop (known : Verifiers) (text : Bytes) : List Bytes → LoopState → Except OpenErr LoopState
   | [], st => .ok st
   | line :: rest, st =>
-    match parseSigLine line with
-    | none => .error .malformed
-    | some p =>
-      let numSig := st.numSig + 1
-      if numSig > maxSigs then .error .malformed else
-      let st := { st with numSig := numSig }
-      match known p.name p.hash with
-      | .unknown =>
-        if st.seenUnverified.contains p.line then openLoop known text rest st
-        else openLoop known text rest
-          { st with seenUnverified := p.line :: st.seenUnverified,
-                    unverifiedSigs := st.unverifiedSigs ++ [⟨p.name, p.hash, p.b64⟩] }
-      | .ambiguous => .error (.ambiguous p.name p.hash)
-      | .otherErr => .error .other
-      | .found v =>
-        if v.name != p.name || v.hash != p.hash then .error .mismatchedVerifier
-        else if st.seen.contains (p.name, p.hash) then openLoop known text rest st
-        else if !v.verify text p.sig then .error (.invalidSignature p.name p.hash)
-        else openLoop known text rest
-          { st with seen := (p.name, p.hash) :: st.seen,
-                    sigs := st.sigs ++ [⟨p.name, p.hash, p.b64⟩] }
+    match openStep known text st line with
+    | .error e => .error e
+    | .ok st' => openLoop known text rest st'
 
 /-- Open(msg, known) -/
 def Open (msg : Bytes) (known : Verifiers) : Except OpenErr Note :=
